@@ -1130,6 +1130,21 @@ func (e *Engine) model(st *state, fr *frame, in ssa.CallInstruction, fn *ssa.Fun
 			}
 			return one(st, tuple(affToVal(total), mkNil(errT))), true
 		}
+		// the first bytes of a scratch array a number was staged in (`var scratch [8]byte; PutUint32(scratch[:4], x);
+		// buf.Write(scratch[:4])`): the staged numbers that tile exactly the part written
+		if ibs := stagedPart(st, args[1]); ibs != nil {
+			total := int64(0)
+			for _, ib := range ibs {
+				sz, _ := fixedSize(ib.Type)
+				total += sz
+				ord := ib.Name
+				if sz == 1 {
+					ord = ""
+				}
+				e.addEvent(st, fr, &Event{Kind: EvWriteInt, Buf: args[0], IntType: ib.Type, Order: ord, Src: ib.Args[0], Size: mkInt(sz)}, in)
+			}
+			return one(st, tuple(mkInt(total), mkNil(errT))), true
+		}
 		// a number staged by hand: PutUintN into a local array, or AppendUintN(nil, v)
 		if ibs := stagedInts(src); ibs != nil {
 			total := int64(0)
@@ -1397,6 +1412,15 @@ func (e *Engine) model(st *state, fr *frame, in ssa.CallInstruction, fn *ssa.Fun
 				it = types.Typ[types.Uint64]
 			}
 			sz, _ := fixedSize(it)
+			// PutUint32(b, math.Float32bits(x)): the float x in its IEEE 754 bits – what binary.Write(x) renders
+			if fb := stripCT(args[2]); fb != nil && fb.Op == "call" && len(fb.Args) == 1 {
+				switch {
+				case fb.Name == "math.Float32bits" && m == "PutUint32":
+					it, args = types.Typ[types.Float32], []*Val{args[0], args[1], fb.Args[0]}
+				case fb.Name == "math.Float64bits" && m == "PutUint64":
+					it, args = types.Typ[types.Float64], []*Val{args[0], args[1], fb.Args[0]}
+				}
+			}
 			buf := bufferIn(args[1])
 			var bufv *Val
 			if buf != nil && len(buf.Args) > 0 {
@@ -1886,6 +1910,82 @@ func stagedInts(src *Val) []*Val {
 		}
 	}
 	return nil
+}
+
+// stagedPart: v is arr[lo:hi] with constant bounds over a local byte array in which numbers were staged; the numbers
+// that tile [lo, hi) exactly, in order – nil when the part written is not exactly a run of staged numbers.
+func stagedPart(st *state, v *Val) []*Val {
+	s := stripCT(v)
+	if s == nil || s.Op != "slice" || len(s.Args) < 3 || s.Args[2] == nil || (len(s.Args) > 3 && s.Args[3] != nil) {
+		return nil
+	}
+	base := stripCT(s.Args[0])
+	if base == nil || base.Op != "alloc" {
+		return nil
+	}
+	pt, isP := base.Type.(*types.Pointer)
+	if !isP {
+		return nil
+	}
+	arr, isA := pt.Elem().Underlying().(*types.Array)
+	if !isA {
+		return nil
+	}
+	lo := int64(0)
+	if s.Args[1] != nil {
+		k, isC := s.Args[1].Int64()
+		if !isC {
+			return nil
+		}
+		lo = k
+	}
+	hi, isC := s.Args[2].Int64()
+	if !isC || lo < 0 || hi <= lo || hi > arr.Len() {
+		return nil
+	}
+	c := stripCT(st.content[base.Key()])
+	var segs []*Val
+	switch {
+	case c == nil:
+		return nil
+	case c.Op == "intbytes":
+		segs = []*Val{c}
+	case c.Op == "staged":
+		segs = append(segs, c.Args...)
+	default:
+		return nil
+	}
+	var in []*Val
+	for _, sg := range segs {
+		if sg.Op != "intbytes" {
+			return nil
+		}
+		sz, ok := fixedSize(sg.Type)
+		if !ok || sz <= 0 {
+			return nil
+		}
+		a, b := int64(sg.ID), int64(sg.ID)+sz
+		if b <= lo || a >= hi {
+			continue
+		}
+		if a < lo || b > hi {
+			return nil // a number cut in two
+		}
+		in = append(in, sg)
+	}
+	sort.Slice(in, func(i, j int) bool { return in[i].ID < in[j].ID })
+	off := lo
+	for _, sg := range in {
+		if int64(sg.ID) != off {
+			return nil
+		}
+		sz, _ := fixedSize(sg.Type)
+		off += sz
+	}
+	if off != hi || len(in) == 0 {
+		return nil
+	}
+	return in
 }
 
 // stagedBlock: the segments of a record staged in a local byte array, in order, when they tile it completely: numbers
